@@ -65,184 +65,275 @@ func c06Reparent(e *Env) {
 	sort.Strings(names)
 	r.Unit("%s: child-bearing fields of route.node: %v", rule, names)
 	r.Floor(rule, len(cb), 3, "child-bearing fields of the tree node")
-	info := ins.Pkg.TypesInfo
-	fname := w.FuncName(ins.Obj)
-	par := parents(ins.Decl)
 	isCB := map[*types.Var]bool{}
 	for _, f := range cb {
 		isCB[f] = true
 	}
 	nSplit := 0
-	ast.Inspect(ins.Decl.Body, func(nd ast.Node) bool {
-		as, ok := nd.(*ast.AssignStmt)
-		if !ok || len(as.Rhs) != 1 || len(as.Lhs) != 1 {
-			return true
+	// split sites are looked for in every function of the package: the split may live in a
+	// helper of insert (cur.splitOffTail(n))
+	for _, sf := range declaredNonTest(w) {
+		if sf.Pkg != ins.Pkg || sf.Decl.Body == nil {
+			continue
 		}
-		call, ok := unparen(as.Rhs[0]).(*ast.CallExpr)
-		if !ok || calleeOf(info, call) != newNode.Obj {
-			return true
-		}
-		// arguments that are child-bearing fields of some base
-		moved := map[*types.Var]bool{}
-		var base *types.Var
-		for _, a := range call.Args {
-			if se, ok := unparen(a).(*ast.SelectorExpr); ok {
-				if f := usedVar(info, se); f != nil && isCB[f] {
-					moved[f] = true
-					base = usedVar(info, se.X)
-				}
+		sf := sf
+		info := sf.Pkg.TypesInfo
+		fname := w.FuncName(sf.Obj)
+		par := parents(sf.Decl)
+		ast.Inspect(sf.Decl.Body, func(nd ast.Node) bool {
+			as, ok := nd.(*ast.AssignStmt)
+			if !ok || len(as.Rhs) != 1 || len(as.Lhs) != 1 {
+				return true
 			}
-		}
-		if len(moved) == 0 {
-			return true // plain creation of a fresh child
-		}
-		nSplit++
-		nVar := usedVar(info, as.Lhs[0])
-		blk, _ := par[as].(*ast.BlockStmt)
-		if blk == nil || nVar == nil || base == nil {
-			r.Fail(rule, fmt.Sprintf("%s:split#%d", fname, nSplit), w.Pos(as.Pos()), "edge split is analysable", "split site has an unexpected shape; undecided")
-			return true
-		}
-		var after []ast.Stmt
-		for i, s := range blk.List {
-			if s == ast.Stmt(as) {
-				after = blk.List[i+1:]
+			call, ok := unparen(as.Rhs[0]).(*ast.CallExpr)
+			if !ok || calleeOf(info, call) != newNode.Obj {
+				return true
 			}
-		}
-		for _, f := range cb {
-			key := fmt.Sprintf("%s:split#%d:%s", fname, nSplit, f.Name())
-			pos := w.Pos(as.Pos())
-			r.Check(moved[f], rule, key+":moved", pos, "field "+f.Name()+" of the split node is handed to the new node", "newNode does not receive "+base.Name()+"."+f.Name()+": that subtree is lost by the split")
-			cleared := false
-			_, isSlice := f.Type().Underlying().(*types.Slice)
-			// only unconditional statements of the split block count, or statements guarded by
-			// nothing but a nil test of the same field (`if cur.F != nil { cur.F.parent = n }`);
-			// an else-branch or any other condition makes the step conditional on something else
-			flatten := func(finfo *types.Info, stmts []ast.Stmt) []ast.Stmt {
-				var flat []ast.Stmt
-				for _, s := range stmts {
-					switch x := s.(type) {
-					case *ast.IfStmt:
-						be, ok := unparen(x.Cond).(*ast.BinaryExpr)
-						if !ok || be.Op != token.NEQ || x.Init != nil {
-							continue
-						}
-						if id, ok := unparen(be.Y).(*ast.Ident); ok && id.Name == "nil" && usedVar(finfo, be.X) == f {
-							flat = append(flat, x.Body.List...) // the else part (if any) is ignored
-						}
-					default:
-						flat = append(flat, s)
+			// arguments that are child-bearing fields of some base
+			moved := map[*types.Var]bool{}
+			var base *types.Var
+			for _, a := range call.Args {
+				if se, ok := unparen(a).(*ast.SelectorExpr); ok {
+					if f := usedVar(info, se); f != nil && isCB[f] {
+						moved[f] = true
+						base = usedVar(info, se.X)
 					}
 				}
-				return flat
 			}
-			// reparents: one of the statements gives the nodes in field f the parent nv
-			reparents := func(finfo *types.Info, s ast.Stmt, nv *types.Var) bool {
-				switch x := s.(type) {
-				case *ast.RangeStmt:
-					if isSlice && usedVar(finfo, x.X) == f {
-						if vid, ok := x.Value.(*ast.Ident); ok {
-							ev := finfo.ObjectOf(vid)
-							for _, bs := range x.Body.List {
-								if a2, ok := bs.(*ast.AssignStmt); ok && len(a2.Lhs) == 1 && len(a2.Rhs) == 1 {
-									if se, ok := unparen(a2.Lhs[0]).(*ast.SelectorExpr); ok && usedVar(finfo, se) == parent {
-										if id, ok := unparen(se.X).(*ast.Ident); ok && finfo.ObjectOf(id) == ev && usedVar(finfo, a2.Rhs[0]) == nv {
-											return true
+			if len(moved) == 0 {
+				return true // plain creation of a fresh child
+			}
+			nSplit++
+			nVar := usedVar(info, as.Lhs[0])
+			// the statement list the split sits in: a block or the body of a switch case
+			var blk ast.Node
+			var list []ast.Stmt
+			switch x := par[as].(type) {
+			case *ast.BlockStmt:
+				blk, list = x, x.List
+			case *ast.CaseClause:
+				blk, list = x, x.Body
+			}
+			if blk == nil || nVar == nil || base == nil {
+				r.Fail(rule, fmt.Sprintf("%s:split#%d", fname, nSplit), w.Pos(as.Pos()), "edge split is analysable", "split site has an unexpected shape; undecided")
+				return true
+			}
+			var after []ast.Stmt
+			for i, s := range list {
+				if s == ast.Stmt(as) {
+					after = list[i+1:]
+				}
+			}
+			// when the old node is the receiver/parameter of a helper that returns the split-off
+			// node, resetting the old node is the caller's part: the statements after each call
+			type callerCtx struct {
+				info  *types.Info
+				stmts []ast.Stmt
+				base  *types.Var
+			}
+			var callers []callerCtx
+			if sig := sf.Obj.Type().(*types.Signature); sf.Obj != ins.Obj {
+				pidx := -2
+				if sig.Recv() != nil && sig.Recv() == base {
+					pidx = -1
+				}
+				for i := 0; i < sig.Params().Len(); i++ {
+					if sig.Params().At(i) == base {
+						pidx = i
+					}
+				}
+				if pidx > -2 {
+					for _, cf := range declaredNonTest(w) {
+						if cf.Pkg != ins.Pkg || cf.Decl.Body == nil {
+							continue
+						}
+						cinfo := cf.Pkg.TypesInfo
+						cpar := parents(cf.Decl)
+						for _, c := range funcsCallingIn(cf, func(f *types.Func) bool { return f == sf.Obj }) {
+							var argBase *types.Var
+							if pidx == -1 {
+								if se, ok := unparen(c.Fun).(*ast.SelectorExpr); ok {
+									argBase = usedVar(cinfo, se.X)
+								}
+							} else if pidx < len(c.Args) {
+								argBase = usedVar(cinfo, c.Args[pidx])
+							}
+							// enclosing statement and its list
+							var st ast.Node = c
+							for st != nil {
+								if _, ok := st.(ast.Stmt); ok {
+									break
+								}
+								st = cpar[st]
+							}
+							var clist []ast.Stmt
+							switch x := cpar[st].(type) {
+							case *ast.BlockStmt:
+								clist = x.List
+							case *ast.CaseClause:
+								clist = x.Body
+							}
+							for i, s2 := range clist {
+								if ast.Node(s2) == st && argBase != nil {
+									callers = append(callers, callerCtx{cinfo, clist[i+1:], argBase})
+								}
+							}
+						}
+					}
+				}
+			}
+			for _, f := range cb {
+				key := fmt.Sprintf("%s:split#%d:%s", fname, nSplit, f.Name())
+				pos := w.Pos(as.Pos())
+				r.Check(moved[f], rule, key+":moved", pos, "field "+f.Name()+" of the split node is handed to the new node", "newNode does not receive "+base.Name()+"."+f.Name()+": that subtree is lost by the split")
+				cleared := false
+				_, isSlice := f.Type().Underlying().(*types.Slice)
+				// only unconditional statements of the split block count, or statements guarded by
+				// nothing but a nil test of the same field (`if cur.F != nil { cur.F.parent = n }`);
+				// an else-branch or any other condition makes the step conditional on something else
+				flatten := func(finfo *types.Info, stmts []ast.Stmt) []ast.Stmt {
+					var flat []ast.Stmt
+					for _, s := range stmts {
+						switch x := s.(type) {
+						case *ast.IfStmt:
+							be, ok := unparen(x.Cond).(*ast.BinaryExpr)
+							if !ok || be.Op != token.NEQ || x.Init != nil {
+								continue
+							}
+							if id, ok := unparen(be.Y).(*ast.Ident); ok && id.Name == "nil" && usedVar(finfo, be.X) == f {
+								flat = append(flat, x.Body.List...) // the else part (if any) is ignored
+							}
+						default:
+							flat = append(flat, s)
+						}
+					}
+					return flat
+				}
+				// reparents: one of the statements gives the nodes in field f the parent nv
+				reparents := func(finfo *types.Info, s ast.Stmt, nv *types.Var) bool {
+					switch x := s.(type) {
+					case *ast.RangeStmt:
+						if isSlice && usedVar(finfo, x.X) == f {
+							if vid, ok := x.Value.(*ast.Ident); ok {
+								ev := finfo.ObjectOf(vid)
+								for _, bs := range x.Body.List {
+									if a2, ok := bs.(*ast.AssignStmt); ok && len(a2.Lhs) == 1 && len(a2.Rhs) == 1 {
+										if se, ok := unparen(a2.Lhs[0]).(*ast.SelectorExpr); ok && usedVar(finfo, se) == parent {
+											if id, ok := unparen(se.X).(*ast.Ident); ok && finfo.ObjectOf(id) == ev && usedVar(finfo, a2.Rhs[0]) == nv {
+												return true
+											}
+										}
+									}
+								}
+							}
+						}
+					case *ast.AssignStmt:
+						if len(x.Lhs) == 1 && len(x.Rhs) == 1 {
+							if se, ok := unparen(x.Lhs[0]).(*ast.SelectorExpr); ok {
+								// cur.F.parent = n
+								if !isSlice && usedVar(finfo, se) == parent && usedVar(finfo, x.Rhs[0]) == nv {
+									if inner, ok := unparen(se.X).(*ast.SelectorExpr); ok && usedVar(finfo, inner) == f {
+										return true
+									}
+								}
+							}
+						}
+					}
+					return false
+				}
+				// the variable holding the split-off node must still hold it when it is used as the new
+				// parent: no assignment to it (in any nested branch) between the split and that statement
+				stillSplit := func(at token.Pos) bool {
+					ok := true
+					ast.Inspect(blk, func(n ast.Node) bool {
+						if a, isA := n.(*ast.AssignStmt); isA && a.Pos() > as.End() && a.End() < at {
+							for _, l := range a.Lhs {
+								if id, isI := unparen(l).(*ast.Ident); isI && info.ObjectOf(id) == types.Object(nVar) {
+									ok = false
+								}
+							}
+						}
+						return true
+					})
+					return ok
+				}
+				reparented := false
+				for _, s := range flatten(info, after) {
+					if x, ok := s.(*ast.AssignStmt); ok && len(x.Lhs) == 1 && len(x.Rhs) == 1 {
+						// cur.F = nil
+						if se, ok := unparen(x.Lhs[0]).(*ast.SelectorExpr); ok && usedVar(info, se) == f && usedVar(info, se.X) == base {
+							if id, ok := unparen(x.Rhs[0]).(*ast.Ident); ok && id.Name == "nil" {
+								cleared = true
+							}
+						}
+					}
+					if !stillSplit(s.Pos()) {
+						continue
+					}
+					if reparents(info, s, nVar) {
+						reparented = true
+					}
+					// a helper of the package that receives the old node and the split node and does the
+					// re-parenting in its (unconditional) body: cur.reparentChildren(n)
+					if es, ok := s.(*ast.ExprStmt); ok {
+						if call, ok := es.X.(*ast.CallExpr); ok {
+							if d := w.DeclOf(calleeOf(info, call)); d != nil && d.Pkg == ins.Pkg && d.Decl.Body != nil {
+								sig := d.Obj.Type().(*types.Signature)
+								var nv *types.Var
+								oldBound := false
+								if se, ok := unparen(call.Fun).(*ast.SelectorExpr); ok && sig.Recv() != nil {
+									if usedVar(info, se.X) == nVar {
+										nv = sig.Recv()
+									}
+									if usedVar(info, se.X) == base {
+										oldBound = true
+									}
+								}
+								for ai, a := range call.Args {
+									if ai < sig.Params().Len() {
+										if usedVar(info, a) == nVar {
+											nv = sig.Params().At(ai)
+										}
+										if usedVar(info, a) == base {
+											oldBound = true
+										}
+									}
+								}
+								if nv != nil && oldBound {
+									for _, hs := range flatten(d.Pkg.TypesInfo, d.Decl.Body.List) {
+										if reparents(d.Pkg.TypesInfo, hs, nv) {
+											reparented = true
 										}
 									}
 								}
 							}
 						}
 					}
-				case *ast.AssignStmt:
-					if len(x.Lhs) == 1 && len(x.Rhs) == 1 {
-						if se, ok := unparen(x.Lhs[0]).(*ast.SelectorExpr); ok {
-							// cur.F.parent = n
-							if !isSlice && usedVar(finfo, se) == parent && usedVar(finfo, x.Rhs[0]) == nv {
-								if inner, ok := unparen(se.X).(*ast.SelectorExpr); ok && usedVar(finfo, inner) == f {
-									return true
-								}
-							}
-						}
-					}
 				}
-				return false
-			}
-			// the variable holding the split-off node must still hold it when it is used as the new
-			// parent: no assignment to it (in any nested branch) between the split and that statement
-			stillSplit := func(at token.Pos) bool {
-				ok := true
-				ast.Inspect(blk, func(n ast.Node) bool {
-					if a, isA := n.(*ast.AssignStmt); isA && a.Pos() > as.End() && a.End() < at {
-						for _, l := range a.Lhs {
-							if id, isI := unparen(l).(*ast.Ident); isI && info.ObjectOf(id) == types.Object(nVar) {
-								ok = false
-							}
-						}
-					}
-					return true
-				})
-				return ok
-			}
-			reparented := false
-			for _, s := range flatten(info, after) {
-				if x, ok := s.(*ast.AssignStmt); ok && len(x.Lhs) == 1 && len(x.Rhs) == 1 {
-					// cur.F = nil
-					if se, ok := unparen(x.Lhs[0]).(*ast.SelectorExpr); ok && usedVar(info, se) == f && usedVar(info, se.X) == base {
-						if id, ok := unparen(x.Rhs[0]).(*ast.Ident); ok && id.Name == "nil" {
-							cleared = true
-						}
-					}
-				}
-				if !stillSplit(s.Pos()) {
-					continue
-				}
-				if reparents(info, s, nVar) {
-					reparented = true
-				}
-				// a helper of the package that receives the old node and the split node and does the
-				// re-parenting in its (unconditional) body: cur.reparentChildren(n)
-				if es, ok := s.(*ast.ExprStmt); ok {
-					if call, ok := es.X.(*ast.CallExpr); ok {
-						if d := w.DeclOf(calleeOf(info, call)); d != nil && d.Pkg == ins.Pkg && d.Decl.Body != nil {
-							sig := d.Obj.Type().(*types.Signature)
-							var nv *types.Var
-							oldBound := false
-							if se, ok := unparen(call.Fun).(*ast.SelectorExpr); ok && sig.Recv() != nil {
-								if usedVar(info, se.X) == nVar {
-									nv = sig.Recv()
-								}
-								if usedVar(info, se.X) == base {
-									oldBound = true
-								}
-							}
-							for ai, a := range call.Args {
-								if ai < sig.Params().Len() {
-									if usedVar(info, a) == nVar {
-										nv = sig.Params().At(ai)
-									}
-									if usedVar(info, a) == base {
-										oldBound = true
-									}
-								}
-							}
-							if nv != nil && oldBound {
-								for _, hs := range flatten(d.Pkg.TypesInfo, d.Decl.Body.List) {
-									if reparents(d.Pkg.TypesInfo, hs, nv) {
-										reparented = true
+				if !cleared && len(callers) > 0 {
+					all := true
+					for _, cc := range callers {
+						found := false
+						for _, s2 := range cc.stmts {
+							if x, ok := s2.(*ast.AssignStmt); ok && len(x.Lhs) == 1 && len(x.Rhs) == 1 {
+								if se, ok := unparen(x.Lhs[0]).(*ast.SelectorExpr); ok && usedVar(cc.info, se) == f && usedVar(cc.info, se.X) == cc.base {
+									if id, ok := unparen(x.Rhs[0]).(*ast.Ident); ok && id.Name == "nil" {
+										found = true
 									}
 								}
 							}
 						}
+						all = all && found
 					}
+					cleared = all
 				}
+				r.Check(reparented, rule, key+":reparented", pos, "children in "+f.Name()+" get the new node as parent", "no `…parent = "+nVar.Name()+"` for the nodes moved through "+f.Name()+" on every path (unconditionally or under a nil test of that field only): backtracking from them climbs to the old node and takes the wrong branch")
+				r.Check(cleared, rule, key+":cleared", pos, "field "+f.Name()+" is reset on the old node", base.Name()+"."+f.Name()+" is not set to nil after the split: the subtree hangs below both nodes")
 			}
-			r.Check(reparented, rule, key+":reparented", pos, "children in "+f.Name()+" get the new node as parent", "no `…parent = "+nVar.Name()+"` for the nodes moved through "+f.Name()+" on every path (unconditionally or under a nil test of that field only): backtracking from them climbs to the old node and takes the wrong branch")
-			r.Check(cleared, rule, key+":cleared", pos, "field "+f.Name()+" is reset on the old node", base.Name()+"."+f.Name()+" is not set to nil after the split: the subtree hangs below both nodes")
-		}
-		return true
-	})
-	r.Floor(rule, nSplit, 1, "edge-split sites in router.insert")
+			return true
+		})
+	}
+	r.Floor(rule, nSplit, 1, "edge-split sites in package route")
 	// newNode stores every child-bearing argument and the parent
 	{
 		ninfo := newNode.Pkg.TypesInfo
